@@ -88,12 +88,26 @@ pub(crate) struct VThread {
     pub panicked: bool,
     pub pending: Option<Op>,
     pub pending_loc: Option<Loc>,
-    pub go: Arc<(StdMutex<bool>, StdCondvar)>,
+    pub go: Arc<Baton>,
     pub park_token: bool,
     pub cv_notified: bool,
     pub name: Option<String>,
     /// number of blocking waits (condvar wait, park, recv, join) this thread has performed
     pub blocking_waits: u64,
+    /// what the harness says this thread is doing (shown in deadlock reports)
+    pub note: String,
+}
+
+/// Private baton of a virtual thread: the thread runs only after its flag has been raised
+pub(crate) struct Baton {
+    flag: AtomicBool,
+    thread: StdMutex<Option<std::thread::Thread>>,
+}
+
+impl Baton {
+    fn new() -> Baton {
+        Baton { flag: AtomicBool::new(false), thread: StdMutex::new(None) }
+    }
 }
 
 pub(crate) struct ChanSt {
@@ -233,6 +247,13 @@ pub fn set_census_limit(name: &str, limit: usize) {
     }
 }
 
+/// Says what the calling thread is doing from now on (appears in deadlock reports); returns the previous note
+pub fn note(s: &str) -> String {
+    let (rt, me) = ctx();
+    let mut g = rt.inner.lock().unwrap();
+    std::mem::replace(&mut g.threads[me].note, s.to_string())
+}
+
 /// Panics recorded so far in this execution
 pub fn panics() -> Vec<PanicRecord> {
     let (rt, _) = ctx();
@@ -303,7 +324,7 @@ impl Inner {
                     Some(Op::Lock(m)) => format!(" held-by=t{}", self.mutexes[m as usize].map(|x| x as i64).unwrap_or(-1)),
                     _ => String::new(),
                 };
-                format!("t{}[{}] {:?}@{}{}", i, t.name.as_deref().unwrap_or("-"), t.pending.unwrap_or(Op::Start), short_loc(t.pending_loc), extra)
+                format!("t{}[{}|{}] {:?}@{}{}", i, t.name.as_deref().unwrap_or("-"), t.note, t.pending.unwrap_or(Op::Start), short_loc(t.pending_loc), extra)
             })
             .collect()
     }
@@ -380,18 +401,30 @@ impl Inner {
 }
 
 impl Rt {
-    fn wake(&self, go: &Arc<(StdMutex<bool>, StdCondvar)>) {
-        let mut g = go.0.lock().unwrap();
-        *g = true;
-        go.1.notify_one();
+    fn wake(&self, go: &Arc<Baton>) {
+        go.flag.store(true, Ordering::SeqCst);
+        if let Some(t) = go.thread.lock().unwrap().as_ref() {
+            t.unpark();
+        }
     }
 
-    fn wait_go(&self, go: &Arc<(StdMutex<bool>, StdCondvar)>) {
-        let mut g = go.0.lock().unwrap();
-        while !*g {
-            g = go.1.wait(g).unwrap();
+    fn wait_go(&self, go: &Arc<Baton>) {
+        {
+            let mut t = go.thread.lock().unwrap();
+            if t.is_none() {
+                *t = Some(std::thread::current());
+            }
         }
-        *g = false;
+        let spin = SPIN.load(Ordering::Relaxed);
+        let mut n = 0;
+        while !go.flag.swap(false, Ordering::SeqCst) {
+            if n < spin {
+                n += 1;
+                std::hint::spin_loop();
+            } else {
+                std::thread::park();
+            }
+        }
     }
 
     fn finish_if_over(&self, g: &Inner) {
@@ -464,11 +497,12 @@ impl Rt {
             panicked: false,
             pending: Some(Op::Start),
             pending_loc: None,
-            go: Arc::new((StdMutex::new(false), StdCondvar::new())),
+            go: Arc::new(Baton::new()),
             park_token: false,
             cv_notified: false,
             name: name.clone(),
             blocking_waits: 0,
+            note: String::new(),
         });
         if let Some(name) = name {
             if let Some(limit) = g.census.iter().find(|e| e.0 == name).map(|e| e.1) {
@@ -484,23 +518,50 @@ impl Rt {
     pub(crate) fn start_os_thread<F: FnOnce() + Send + 'static>(self: &Arc<Self>, tid: usize, f: F) {
         let rt = self.clone();
         let go = self.inner.lock().unwrap().threads[tid].go.clone();
-        std::thread::Builder::new()
-            .stack_size(STACK_SIZE.load(Ordering::Relaxed) as usize)
-            .spawn(move || {
-                CTX.with(|c| *c.borrow_mut() = Some((rt.clone(), tid)));
-                rt.wait_go(&go);
-                {
-                    let mut g = rt.inner.lock().unwrap();
-                    g.threads[tid].pending = None;
-                }
-                let r = std::panic::catch_unwind(std::panic::AssertUnwindSafe(f));
-                rt.thread_exit(tid, r.is_err());
-            })
-            .expect("OS thread creation");
+        run_on_carrier(Box::new(move || {
+            CTX.with(|c| *c.borrow_mut() = Some((rt.clone(), tid)));
+            rt.wait_go(&go);
+            {
+                let mut g = rt.inner.lock().unwrap();
+                g.threads[tid].pending = None;
+            }
+            let r = std::panic::catch_unwind(std::panic::AssertUnwindSafe(f));
+            CTX.with(|c| *c.borrow_mut() = None);
+            rt.thread_exit(tid, r.is_err());
+        }));
     }
 }
 
+type CarrierJob = Box<dyn FnOnce() + Send + 'static>;
+
+/// Idle carrier OS threads, reused across executions (a carrier stuck in an abandoned execution is
+/// simply never returned)
+static CARRIERS: StdMutex<Vec<std::sync::mpsc::Sender<CarrierJob>>> = StdMutex::new(Vec::new());
+
+fn run_on_carrier(job: CarrierJob) {
+    let idle = CARRIERS.lock().unwrap().pop();
+    let job = match idle {
+        Some(tx) => match tx.send(job) {
+            Ok(()) => return,
+            Err(e) => e.0,
+        },
+        None => job,
+    };
+    let (tx, rx) = std::sync::mpsc::channel::<CarrierJob>();
+    tx.send(job).unwrap();
+    std::thread::Builder::new()
+        .stack_size(STACK_SIZE.load(Ordering::Relaxed) as usize)
+        .spawn(move || {
+            while let Ok(job) = rx.recv() {
+                job();
+                CARRIERS.lock().unwrap().push(tx.clone());
+            }
+        })
+        .expect("OS thread creation");
+}
+
 pub static STACK_SIZE: AtomicU64 = AtomicU64::new(512 * 1024);
+pub static SPIN: AtomicU64 = AtomicU64::new(1000);
 
 pub struct Outcome {
     pub trace: Vec<Point>,
